@@ -208,6 +208,7 @@ class Interp:
         self.on_call = None                  # hook(fval, args, kwargs) -> (handled, value)
         self.int_is_means_eq = False
         self.empty_dict_factory = None       # contract may ask for `{}` to be a symbolic dict (keys will be symbolic)
+        self.empty_list_factory = None       # likewise for `[]` (an opaque / symbolic collection)
 
     # ------------------------------------------------------------------------------------------------------------
     # functions
@@ -656,6 +657,8 @@ class Interp:
 
     def e_List(self, n, env):
         from . import values
+        if not n.elts and self.empty_list_factory is not None:
+            return self.empty_list_factory()
         parts, symbolic = [], False
         for e in n.elts:
             if isinstance(e, ast.Starred):
